@@ -97,7 +97,10 @@ fn run(rng: &mut Rng, idx: u64, tier: Tier) -> CaseOut {
     }
     let net = crate::net::gen_net(rng, &nopts);
     let mut f = gen_formula(rng, &fopts, &net.names);
-    if with_domains && rng.chance(1, 4) {
+    let mut crafted_case = false;
+    let mut forced: Option<F> = None;
+    if with_domains && rng.chance(1, 3) {
+        crafted_case = true;
         // a closed sub-formula (one of the two pattern formulae or a small random one) inside a restricted-domain
         // scope that does not mention the scope's variable, and again outside of it (either order)
         let closed = |rng: &mut Rng, v: &str| -> F {
@@ -113,8 +116,27 @@ fn run(rng: &mut Rng, idx: u64, tier: Tier) -> CaseOut {
         let kind_seed = rng.next();
         let mut r1 = Rng::new(kind_seed);
         let mut r2 = Rng::new(kind_seed);
-        let p_in = closed(&mut r1, "y");
-        let p_out = closed(&mut r2, if rng.coin() { "y" } else { "z" });
+        let mut p_in = closed(&mut r1, "y");
+        let mut p_out = closed(&mut r2, if rng.chance(3, 4) { "y" } else { "z" });
+        // the duplicated closed sub-formula may itself be a Boolean combination (with negation-like operators, which
+        // are evaluated against the unit set of the CURRENT graph) of closed sub-formulae that get substituted
+        let other = closed(rng, "u");
+        forced = Some(p_in.clone());
+        match rng.below(5) {
+            0 => {
+                p_in = un(Un::Not, p_in);
+                p_out = un(Un::Not, p_out);
+            }
+            1 => {
+                p_in = bin(Bin::Imp, p_in, other.clone());
+                p_out = bin(Bin::Imp, p_out, other);
+            }
+            2 => {
+                p_in = bin(Bin::Xor, other.clone(), p_in);
+                p_out = bin(Bin::Xor, other, p_out);
+            }
+            _ => {}
+        }
         let lit = if rng.coin() { var("x") } else { F::Prop(rng.pick(&net.names).clone()) };
         let mut inner = bin(*rng.pick(&[Bin::And, Bin::Or]), p_in, lit);
         if rng.coin() {
@@ -133,10 +155,33 @@ fn run(rng: &mut Rng, idx: u64, tier: Tier) -> CaseOut {
     };
     let text = f.canon();
     let mut picked = Vec::new();
-    let g = substitute(&f, rng, &mut picked, true, 4, 35);
+    let mut out_forced = false;
+    // in the crafted family the duplicated closed sub-formula is replaced at ALL its occurrences half of the time
+    let mut f_for_subst = f.clone();
+    if let Some(p) = forced.filter(|_| rng.coin()) {
+        fn replace_all(f: &F, target: &F, label: &str) -> F {
+            if f == target {
+                return F::Wild(label.to_string());
+            }
+            match f {
+                F::Un(op, a) => un(*op, replace_all(a, target, label)),
+                F::Bin(op, a, b) => bin(*op, replace_all(a, target, label), replace_all(b, target, label)),
+                F::Hyb(op, v, d, a) => F::Hyb(*op, v.clone(), d.clone(), Box::new(replace_all(a, target, label))),
+                other => other.clone(),
+            }
+        }
+        let label = rng.pick(&["w0", "1", "True", "x"]).to_string();
+        f_for_subst = replace_all(&f, &p, &label);
+        picked.push((label, p));
+        out_forced = true;
+    }
+    let g = substitute(&f_for_subst, rng, &mut picked, true, 4, if crafted_case { 55 } else { 35 });
     let gtext = g.canon();
     let mut out = CaseOut::new(format!("{}|{}|{}", world.net.to_aeon(), text, gtext));
     hooks_on();
+    if out_forced {
+        out.count("crafted_duplicate_replaced_everywhere");
+    }
     let mut base_sets = HashMap::new();
     if with_domains {
         out.count("surrounding_formula_with_domains");
@@ -214,7 +259,14 @@ fn run(rng: &mut Rng, idx: u64, tier: Tier) -> CaseOut {
     let unit = sys.graph.unit_colored_vertices();
     let mut nontrivial = false;
     for (label, sub) in &picked {
-        let r = get!(run_ep(if with_domains { Ep::ExtendedDirty } else { Ep::FormulaDirty }, &sub.canon(), &sys, &empty), format!("evaluation of the sub-formula `{}`", sub.canon()));
+        // (a picked sub-formula may itself contain labels picked before it: evaluate with the context built so far)
+        let so_far = ctx.clone();
+        let nested = {
+            let (mut ps, mut ds) = (Vec::new(), Vec::new());
+            sub.wild_labels(&mut ps, &mut ds);
+            !ps.is_empty() || !ds.is_empty()
+        };
+        let r = get!(run_ep(if with_domains || nested { Ep::ExtendedDirty } else { Ep::FormulaDirty }, &sub.canon(), &sys, &so_far), format!("evaluation of the sub-formula `{}`", sub.canon()));
         if !r.is_empty() && &r != unit {
             nontrivial = true;
         }
